@@ -224,6 +224,26 @@ func main() {
 			verifRoot = d
 		}
 	}
+	if flag.NArg() >= 1 && flag.Arg(0) == "warm" {
+		// kafcheck warm: load every module once so that `go list -export` has compiled the
+		// dependencies' export data into the build cache (used by setup_cmd; a cold iceberg
+		// module otherwise costs minutes on the first check that needs it).
+		r := os.Getenv("KAFCHECK_REPO")
+		if r == "" {
+			r = "/repo"
+		}
+		repoRoot = r
+		for _, name := range []string{"root", "iceberg", "sql", "skeleton"} {
+			t0 := time.Now()
+			m, err := loadModule(r, name, nil)
+			if err != nil {
+				fmt.Fprintln(os.Stderr, "warm:", err)
+				os.Exit(2)
+			}
+			fmt.Printf("warm %s: %d packages, %d functions, %.1fs\n", name, len(m.Pkgs), len(m.AllFuncs), time.Since(t0).Seconds())
+		}
+		return
+	}
 	if flag.NArg() >= 3 && flag.Arg(0) == "dump" {
 		// kafcheck dump <module> <pkgpath> <func>   (debug aid: print SSA)
 		r := os.Getenv("KAFCHECK_REPO")
